@@ -30,13 +30,14 @@ ASSUMPTIONS = [
     "module-level state outside the three force-field globals, the class-level descriptor list and the global generator would survive the per-history reset; it would then show up in a later history of the same worker",
     "baselines come from one fresh interpreter per check run (not from the worker that explores)",
 ]
-BOUNDS = {"quick": "3 strings, all histories of depth 2 (14 ops x 2 instances), merged BFS to depth 3", "thorough": "5 strings, all histories of depth 3 for two of them (rotated by seed) and depth 2 for the others, merged BFS to depth 5"}
+BOUNDS = {"quick": "4 strings, all histories of depth 2 (14 ops x 2 instances), merged BFS to depth 3", "thorough": "6 strings, all histories of depth 3 for two of them (rotated by seed) and depth 2 for the others, merged BFS to depth 5"}
 CASE_TIMEOUT = {"quick": 900, "thorough": 6000}
 
 STRINGS = [
     "N{[>|3|][<]CC[>], [<|2|]CO[>][<]}|schulz_zimm(150, 120)|S{[>][<]CS[>]; [<]Cl[<]}|schulz_zimm(90, 70)|F",
     "{[][$]CC([$])C=O, [$|0.5|]CC([$])CO; [$][H], [$]O[]}|uniform(50, 150)|",
     "OC{[>|3 0 1 0|][<]CC([>|2|])C(=O)OC, [<]CC[>][<]}|gauss(60, 90)|[H]",
+    "C=[$]{[$][$]=CC=[$]; [$]=C, [$]=O[]}|uniform(20, 90)|",
     "CC{[$][$]CC[$][$]}|uniform(12, 72)|COOC{[$][$]C[$][$]}|uniform(12, 72)|CO",
     "[H]{[>][<]CC([>])c1ccccc1[<]}|poisson(300)|CC{[>][<]CC([>])C(=O)OC[<]}|log_normal(200, 1.2)|C",
 ]
@@ -46,8 +47,9 @@ SIBLINGS = {
     STRINGS[0]: "N{[>|3|][<]C([>])C, [<|2|]C([>])O[<]}|schulz_zimm(150, 120)|S{[>][<]C([>])S; [<]Cl[<]}|schulz_zimm(90, 70)|F",
     STRINGS[1]: "{[][$]CCC([$])=O, [$|0.5|]CCC([$])O; [$][H], [$]O[]}|uniform(50, 150)|",
     STRINGS[2]: "OC{[>|3 0 1 0|][<]CCC(=O)OC[>|2|], [<]C([>])C[<]}|gauss(60, 90)|[H]",
-    STRINGS[3]: "CC{[$][$]C([$])C[$]}|uniform(12, 72)|COOC{[$][$]C[$][$]}|uniform(12, 72)|CO",
-    STRINGS[4]: "[H]{[>][<]CCc1ccccc1[>][<]}|poisson(300)|CC{[>][<]CCC(=O)OC[>][<]}|log_normal(200, 1.2)|C",
+    STRINGS[3]: "C=[$]{[$][$]=CCC=[$]; [$]=C, [$]=O[]}|uniform(20, 90)|",
+    STRINGS[4]: "CC{[$][$]C([$])C[$]}|uniform(12, 72)|COOC{[$][$]C[$][$]}|uniform(12, 72)|CO",
+    STRINGS[5]: "[H]{[>][<]CCc1ccccc1[>][<]}|poisson(300)|CC{[>][<]CCC(=O)OC[>][<]}|log_normal(200, 1.2)|C",
 }
 OPS = ["P", "G1", "G2", "GG", "S", "E", "M", "RG", "SG", "AG", "FF", "EP", "SY", "GB"]
 SEEDS = (1, 2, 4, 5)  # seeds 4 and 5 give a negative first gaussian draw for the wide law of the third string
@@ -113,7 +115,7 @@ def baselines(strings):
 
 
 def enumerate_cases(tier, seed):
-    n = 3 if tier == "quick" else 5
+    n = 4 if tier == "quick" else 6
     strings = STRINGS[:n]
     k = seed % len(strings)
     strings = strings[k:] + strings[:k]
